@@ -41,7 +41,11 @@ impl Report {
         }
     }
     pub fn finding(&mut self, class: &str, kind: &str, detail: String, replay: serde_json::Value) {
-        if self.findings.len() < 20 {
+        // caps per class and per kind, so that one noisy kind cannot crowd out the others
+        let same_class = self.findings.iter().filter(|f| f.class == class).count();
+        let same_kind = self.findings.iter().filter(|f| f.kind == kind).count();
+        *self.histogram.entry(format!("finding.{}", kind)).or_insert(0) += 1;
+        if same_class < 24 && same_kind < 4 {
             self.findings.push(Finding { class: class.into(), kind: kind.into(), detail, replay });
         }
     }
